@@ -22,6 +22,22 @@ DESC = {
  "C15-B": ("C15", "append() splices its last input list with the splicing constructor", "every earlier input contributes no term (`append([], [b, c], $X)`), or the last input list has a bound tail"),
  "C16-A": ("C16", "append() follows only the first bound tail variable of a list argument", "a list argument whose tail variable is bound to a list that itself ends in a bound tail variable"),
  "C16-B": ("C16", "append() compares lengths before unifying Out", "Out already bound to an open list `[$H | $T]` whose prefix length differs from the result length"),
+ "C17-A": ("C17", "count() adds the stored node count of the list a bound tail variable points to instead of walking on", "a tail variable bound to a list that itself ends in a bound tail variable whose list does not have exactly one element"),
+ "C17-B": ("C17", "join() rewritten as words.join(\" \") followed by replacing ` ,` ` .` ` ?` ` !`", "a term longer than one character that starts with a punctuation mark, or a term containing a space followed by one"),
+ "C18-A": ("C18", "parse_complex() slices the source string with character offsets used as byte offsets", "a multi-byte character before the closing parenthesis of a complex term: panic (not a char boundary) or a silently different term"),
+ "C18-B": ("C18", "shared helper for the sign of a number reads the next character without an end-of-input guard", "a term that is exactly `+` or `-` and ends the scanned text: index out of bounds"),
+ "C19-A": ("C19", "parse_linked_list() builds the list with the splicing constructor", "a list literal of two or more elements whose last element is itself a list"),
+ "C19-B": ("C19", "Display rounds floats to 15 significant digits", "a float whose shortest round-trip text has 16-17 significant digits"),
+ "C20-A": ("C20", "parse_arguments() no longer resets its `has a period` flag between arguments", "an integer argument after an argument that contains a period (a float, `St. John`)"),
+ "C20-B": ("C20", "parse_linked_list() builds the list with the splicing constructor (same mechanism as C19-A, found independently)", "a list written as the last of two or more list elements"),
+ "C21-A": ("C21", "fast path: when every stripped line is a complete rule, the lines are taken as the rules", "no rule of the file continues on a second line and at least one line holds two rules"),
+ "C21-B": ("C21", "load_kb_from_file() parses into a local knowledge base and merges it with HashMap::extend", "a file loaded into a knowledge base that already has rules of one of the file's predicates"),
+ "C22-A": ("C22", "make_query() no longer clears the stop flag; only the base node is counted without it", "an earlier query timed out, the later query is driven by next_solution() and needs a rule body"),
+ "C22-B": ("C22", "solve() returns `No more.` before cancelling its timer; the leaked timer raises the stop flag a second later", "a search driven by next_solution() that is still running about 1 s after an earlier solve() reported `No more.`"),
+ "C23-A": ("C23", "start_query_timer() no longer clears the stop flag", "solve()/solve_all() on a solution node whose query was built before another query timed out"),
+ "C23-B": ("C23", "an answer is formatted and reported before the stop flag is tested", "a real timeout while the search is inside not(...) around the long search (the forced failure turns into a success)"),
+ "C24-A": ("C24", "the Or node keeps a `&mut` to itself across the call into its head goal, while the cut writes to that node through a raw pointer", "a cut executed inside an alternative of a disjunction, followed by failure (Miri: aliasing violation)"),
+ "C24-B": ("C24", "the timer number becomes a plain `static mut`", "a timer that really expires, then cancel_timer() or the next start_query_timer() (Miri: data race)"),
  "C02-A": ("C02", "rule-body re-entry rewritten with Option::take(); the cut test after a failed re-entry is dropped", "a cut in a non-first alternative of a disjunction, the call re-entered after its first answer, the goals after the cut fail, and a later clause matches"),
  "C02-B": ("C02", "every node kind tests its own cut flag; the Or node does so only after delegating to its tail node", "a parenthesised disjunction left of a cut whose later alternative supplied the answer and has more, and the goals after the cut fail"),
  "C03-A": ("C03", "not(G) decides ground goals on fact-only predicates by structural equality instead of unification", "G ground at the call, predicate without rule bodies, and the only fact answering G is non-ground (`$_` or a repeated variable)"),
